@@ -45,13 +45,25 @@ def adaptationField (disc ra esp : Bool) (pcr opcr : Option Bytes) (splice : Opt
   byte (afBody disc ra esp pcr opcr splice priv ext stuffing).length ::
     afBody disc ra esp pcr opcr splice priv ext stuffing
 
-/-- ISO 13818-1 adaptation field extension: `adaptation_field_extension_length` = number of bytes
-    that FOLLOW it; flags ltw, piecewise_rate, seamless_splice, 5 reserved bits set; then
-    ltw (2 bytes), piecewise rate (3 bytes), seamless splice (5 bytes). -/
-def afExtension (ltw piecewise seamless : Option Bytes) : Bytes :=
-  let body := byte (ltw.isSome.toNat * 128 + piecewise.isSome.toNat * 64 + seamless.isSome.toNat * 32 + 0x1F) ::
+/-- ISO 13818-1 adaptation field extension, the bytes after the length byte: flags ltw,
+    piecewise_rate, seamless_splice, 5 reserved bits set; then ltw (2 bytes), piecewise rate (3 bytes),
+    seamless splice (5 bytes). -/
+def afExtensionBody (ltw piecewise seamless : Option Bytes) : Bytes :=
+  byte (ltw.isSome.toNat * 128 + piecewise.isSome.toNat * 64 + seamless.isSome.toNat * 32 + 0x1F) ::
     (optB ltw ++ optB piecewise ++ optB seamless)
-  byte body.length :: body
+
+/-- ISO 13818-1 adaptation field extension: `adaptation_field_extension_length` = number of bytes
+    that FOLLOW it, then the body. -/
+def afExtension (ltw piecewise seamless : Option Bytes) : Bytes :=
+  byte (afExtensionBody ltw piecewise seamless).length :: afExtensionBody ltw piecewise seamless
+
+/-- The extension AS THE LIBRARY CODES IT (encoder and decoder agree with each other, not with ISO):
+    the same body, but the length byte also counts ITSELF — ISO's value plus one
+    (`MPEGAdaptionExtension.pack`: `_len = 2 + parts`; `unpack`: `payload = buffer[:_len]`).
+    Observation E1 of notes/mpeg.md; `Props/C06/MPEGTS.lean` proves `pack` = this function and the
+    exact relation to `afExtension`. -/
+def extensionAsCoded (ltw piecewise seamless : Option Bytes) : Bytes :=
+  byte ((afExtensionBody ltw piecewise seamless).length + 1) :: afExtensionBody ltw piecewise seamless
 
 /-! ### CRC-32/MPEG-2 (ISO 13818-1 Annex A): polynomial 0x04C11DB7, register initialised to all
     ones, bits fed most significant first, no reflection, no final XOR.  The register is 32 bits;
